@@ -76,6 +76,26 @@ def rule_skip(env, shared):
                     if x[0] == "bin" and x[1] == "Sub" and x[2] == Lc and x[3][0] == "atomic" and x[3][1] == "load" \
                             and R.classify(x[3][2]) == ("pos", adt) and p.le(x, k):
                         rest_ok = True
+                # .. or the smallest of several such amounts: the counter only grows, so `LEN - (any earlier read)` is at
+                # least what is left when the reservation takes place, and so is the minimum of such terms
+                def leaves(x):
+                    x = unref(x)
+                    if x[0] == "call" and x[1] == "min" and len(x[2]) == 2:
+                        return leaves(x[2][0]) + leaves(x[2][1])
+                    return [x]
+
+                def rest_leaf(x):
+                    if x == Lc:
+                        return True
+                    a_ = b_ = None
+                    if x[0] == "bin" and x[1] == "Sub":
+                        a_, b_ = x[2], unref(x[3])
+                    elif x[0] == "call" and x[1] == "saturating_sub" and len(x[2]) == 2:
+                        a_, b_ = x[2][0], unref(x[2][1])
+                    return a_ == Lc and b_ is not None and b_[0] == "atomic" and b_[1] == "load" \
+                        and R.classify(b_[2]) == ("pos", adt)
+                if not rest_ok and all(rest_leaf(x) for x in leaves(k)):
+                    rest_ok = True
                 if p.le(Lc, k):
                     good = (e, "reservation form: reserves %s >= LEN positions" % fmt(k)[:60])
                 elif rest_ok:
